@@ -35,6 +35,66 @@ def mk(v, kind="C", dt="float64"):
 exec(MK_SRC)
 
 
+# in-place modifications of the SAME array objects between two calls (sequence streams); pasted into replays too
+OPS_SRC = '''
+def apply_ops(c, ops):
+    import numpy as np
+    for op, k, val in ops:
+        a = c[k]
+        if op == "shift":
+            a -= val
+        elif op == "scale":
+            a *= val
+        elif op == "center":
+            a -= a.mean()
+        elif op == "overwrite":
+            a[...] = np.array(val, dtype=a.dtype).reshape(a.shape)
+        else:
+            raise ValueError(op)
+'''
+exec(OPS_SRC)
+
+
+def first_call(vd, coords, first):
+    """the earlier call of a sequence; its result is not the subject (ValueError tolerated)"""
+    name, kw = first
+    try:
+        getattr(vd, name)(coords, **kw)
+    except ValueError:
+        pass
+
+
+def sequence_ops(rnd, spec, lattice=0.25):
+    """one to three in-place modifications keeping the values on the lattice / integer for integer dtypes"""
+    ops = []
+    for _ in range(rnd.randint(1, 3)):
+        k = rnd.randrange(min(2, len(spec)))
+        v, _, dt = spec[k]
+        isint = dt.startswith("int")
+        op = rnd.choice(["shift", "shift", "scale", "overwrite"] + ([] if isint else ["center"]))
+        if op == "shift":
+            val = rnd.choice([1, 2, -3]) if isint else rnd.choice([lattice, 1.0, -2.5, 0.75])
+        elif op == "scale":
+            val = rnd.choice([2, -1]) if isint else rnd.choice([0.5, 2.0, -1.0])
+        elif op == "overwrite":
+            flat = np.asarray(v, dtype=float).ravel()
+            val = [float(x) for x in rnd.sample(list(flat), len(flat))]      # the same positions, shuffled
+            if isint:
+                val = [int(x) for x in val]
+        else:
+            val = None
+        ops.append((op, k, val))
+    return ops
+
+
+def repro_sequence(first, ops):
+    return OPS_SRC + "import verde\ntry:\n    getattr(verde, %r)(c, **%r)\nexcept ValueError:\n    pass\napply_ops(c, %r)\n" % (first[0], first[1], ops)
+
+
+def fresh(coords):
+    return tuple(np.array(a, copy=True) for a in coords)
+
+
 def _vals(a, dt):
     v = np.asarray(a, dtype=float)
     return v.astype(dt).tolist() if dt != "float64" else v.tolist()
